@@ -280,7 +280,7 @@ def run_tlc(
     coverage: bool = False,
     deadlock: bool = True,
     dfs_queue: bool = False,
-    heap: str = "8g",
+    heap: str = "4g",
     extra: t.Sequence[str] = (),
     spec_dir: pathlib.Path = SPEC,
     tag: str = "",
